@@ -22,9 +22,9 @@ def Proc.family (P : Proc) (tn : Str) : Str :=
   | none => tn
 
 /-- The registry every process of the pinned library starts with (errbase/oserror_go116.go). -/
-def baseReg : List (Str × Str) := [(lit "io/fs/*fs.PathError", osPathErrorKey)]
+def baseReg : List (Str × Str) := [(b!"io/fs/*fs.PathError", osPathErrorKey)]
 
-def archHere : Str := lit "linux:amd64"
+def archHere : Str := b!"linux:amd64"
 
 /-- A process that has every encoder/decoder of the library registered. -/
 def Full : Proc := ⟨baseReg, fun _ => true, archHere⟩
@@ -36,12 +36,12 @@ def sp : Str := [32]
 def leafText : LeafKind → Str
   | .leafError msg => stripMarkers msg
   | .errorString msg => msg
-  | .deadline => lit "context deadline exceeded"
+  | .deadline => b!"context deadline exceeded"
   | .errno _ msg .. => msg
   | .opaqueErrno msg .. => msg
   | .pkgFundamental msg _ => msg
   | .unimplemented msg .. => msg
-  | .testErr => lit "test error"
+  | .testErr => b!"test error"
   | .opaqueLeaf msg .. => msg
   | .user _ msg => msg
 
